@@ -12,9 +12,9 @@ Headline (unbounded: any entry list, any block size, any bloom setting, any hash
 * `C35_point`        every stored internal key with a version above the running maximum (0) is
                      found with its value — holds with or without the forward-seek continuation.
 * `C35_seek_fwd`     ascending `Seek` + `Next…` = the entries from the first one `≥ target` on.
-Partial / as-is:
-* `C35_seek_fwd_partial`  without the continuation an ascending seek is either the specification
-                     or empty, and empty only for targets that are not stored keys.
+As-is descriptions (not gaps):
+* `C35_seek_fwd_partial`  (kind lemma) without the continuation an ascending seek is either the
+                     specification or empty, and empty only for targets that are not stored keys.
 * `C35_fails_asis_seek_block_gap`  negation on the witness of the open finding.
 * `C35_corrupt_block_never_served` (headline, also bears on C14): through `loadBlock` and the block
                      cache, a block whose checksum does not match is never returned, first read or retry.
@@ -99,9 +99,12 @@ theorem C35_seek_fwd (c : SstCfg) (hc : c.Good) (hash : Bytes → Nat) (blockSiz
   · exact h
   · rw [hnb] at h1; cases h1
 
-/-- PARTIAL (as-is forward seek): either the specification or an invalid iterator, the latter
-only for targets that are not stored keys.  Missing for the full statement: the continuation at
-the next block (open finding sst-seek-block-gap). -/
+/-- AS-IS DESCRIPTION, not a gap of the proof: this is what the forward seek does when the
+fall-through to the next block is missing (`seekFallsThrough = false`, the shape of the fixed
+finding sst-seek-block-gap): either the specification or an invalid iterator, the latter only for
+targets that are not stored keys.  The full statement is `C35_seek_fwd`, proved for the good flag
+(which is what the repository has since the fix); this lemma is kept because `C35_point` uses the
+same case analysis and it documents the old behaviour.  Registered with kind `lemma`. -/
 theorem C35_seek_fwd_partial (c : SstCfg) (hc : c.GoodButSeek) (hash : Bytes → Nat) (blockSize : Nat)
     (bloomOn : Bool) (bpk k : Nat) (es : List SEntry) (hs : SortedE es) (target : Bytes) :
     seekFwd c target (buildTable c hash blockSize bloomOn bpk k es).blocks = es.dropWhile (fun e => klt e.1 target) ∨
